@@ -1119,6 +1119,36 @@ func init() {
 		return Value{T: types.Typ[types.Int], K: KScalar, X: r}
 	}
 	stubEffectTable["bytes.IndexByte"] = newModSet
+	// strings.IndexByte(s, c) / strings.LastIndexByte(s, c): the first / last index holding c, or -1.
+	for _, last := range []bool{false, true} {
+		last := last
+		name := "strings.IndexByte"
+		if last {
+			name = "strings.LastIndexByte"
+		}
+		stubs[name] = func(x *Exec, fr *Frame, st *State, callee *ssa.Function, args []Value, pos token.Pos) Value {
+			m := x.m()
+			ixT := IntTy{64, true}
+			s, c := args[0], args[1]
+			if s.K != KString || c.K != KScalar {
+				unsupported(name + " of a non-string")
+			}
+			r := x.vc.fresh("strindexbyte.r", m.ixSort())
+			k := Sym("k!i", m.ixSort())
+			inRange := func(lo, hi *Term) *Term { return And(m.cmp(token.LEQ, lo, k, ixT), m.cmp(token.LSS, k, hi, ixT)) }
+			none := Forall([][2]string{{"k!i", m.ixSort()}}, Implies(inRange(m.ix(0), s.Len), Not(Eq(Select(s.X, k), c.X))))
+			var rest *Term
+			if last {
+				rest = Forall([][2]string{{"k!i", m.ixSort()}}, Implies(And(m.cmp(token.LSS, r, k, ixT), m.cmp(token.LSS, k, s.Len, ixT)), Not(Eq(Select(s.X, k), c.X))))
+			} else {
+				rest = Forall([][2]string{{"k!i", m.ixSort()}}, Implies(inRange(m.ix(0), r), Not(Eq(Select(s.X, k), c.X))))
+			}
+			found := And(m.cmp(token.LEQ, m.ix(0), r, ixT), m.cmp(token.LSS, r, s.Len, ixT), Eq(Select(s.X, r), c.X), rest)
+			x.vc.assume(Implies(st.Reach, Or(And(Eq(r, m.ix(-1)), none), found)))
+			return Value{T: types.Typ[types.Int], K: KScalar, X: r}
+		}
+		stubEffectTable[name] = newModSet
+	}
 	noop := func(x *Exec, fr *Frame, st *State, callee *ssa.Function, args []Value, pos token.Pos) Value {
 		return Value{K: KTuple}
 	}
